@@ -5,6 +5,7 @@
 package main
 
 import (
+	"os/exec"
 	"time"
 	"bufio"
 	"encoding/json"
@@ -44,6 +45,7 @@ type Scenario struct {
 	Steps []Step `json:"steps"`
 	Real  bool   `json:"real"` // real timers (smoke mode): ticks sleep instead of flushing
 	Stall bool   `json:"stall"` // real timers, and the process is suspended for a quarter of a second while it opens a store
+	Half  bool   `json:"half"`  // restarts after the process died inside CREATE DATABASE (at each of its writes to the new data file)
 }
 
 type Result struct {
@@ -299,9 +301,135 @@ func stalled() (res Result) {
 	return res
 }
 
+// halfCreated: the process dies inside CREATE DATABASE x - after the directory was made, after the data file was created,
+// after each write CREATE DATABASE issues on it (recorded from the real statement: the image holds a prefix of them) - and is
+// started again. The statement never returned, so nothing is promised about x except that statements on it are answered;
+// every other database is as it was and keeps working.
+func halfCreated() (res Result) {
+	res.OK, res.Kind = true, "half"
+	os.RemoveAll("data")
+	os.RemoveAll("base")
+	storage.VerifForgetStores()
+	storage.VerifAutoFlushOff()
+	storage.VerifSetCaps(0, 0)
+	if err := storage.InitStorage(); err != nil {
+		return Result{OK: false, Notes: []string{"setup: " + err.Error()}, Kind: "infra"}
+	}
+	w := &world{sess: &engine.Session{}, maxID: map[string]uint32{}, seen: map[string]map[uint32]bool{}}
+	run := func(qs ...string) string {
+		for _, q := range qs {
+			if err, p := w.exec(q); err != nil || p {
+				return fmt.Sprintf("`%s` failed: %v", q, err)
+			}
+		}
+		return ""
+	}
+	if m := run("CREATE DATABASE good", "USE good", "CREATE TABLE t (a INT, b VARCHAR(8))", "INSERT INTO t (a, b) VALUES (1, 'good1'), (2, 'good2')"); m != "" {
+		return Result{OK: false, Notes: []string{"setup: " + m}, Kind: "infra"}
+	}
+	if err := w.sess.Close(); err != nil {
+		return Result{OK: false, Notes: []string{"setup: close: " + err.Error()}, Kind: "infra"}
+	}
+	if err := exec.Command("cp", "-r", "data", "base").Run(); err != nil {
+		return Result{OK: false, Notes: []string{"setup: copy: " + err.Error()}, Kind: "infra"}
+	}
+	// the writes of a real CREATE DATABASE on its data file, in order
+	w.sess = &engine.Session{}
+	storage.VerifRecordIO(true)
+	m := run("CREATE DATABASE x")
+	ios := storage.VerifTakeIO()
+	storage.VerifRecordIO(false)
+	w.sess.Close()
+	if m != "" {
+		return Result{OK: false, Notes: []string{"setup: " + m}, Kind: "infra"}
+	}
+	var writes []storage.VerifIO
+	for _, io := range ios {
+		if io.File == "tbl" {
+			writes = append(writes, io)
+		}
+	}
+	if len(writes) < 2 {
+		return Result{OK: false, Notes: []string{fmt.Sprintf("setup: CREATE DATABASE issued %d writes on its data file", len(writes))}, Kind: "infra"}
+	}
+	fail := func(stage, msg string) Result {
+		res.OK = false
+		res.Viol = append(res.Viol, fmt.Sprintf("restart after the process died inside CREATE DATABASE x (%s): %s", stage, msg))
+		return res
+	}
+	// stage -1: directory only; stage 0: empty data file; stage k: the first k writes reached the file
+	for stage := -1; stage <= len(writes); stage++ {
+		name := "directory made"
+		if stage == 0 {
+			name = "data file created, nothing written"
+		} else if stage > 0 {
+			name = fmt.Sprintf("%d of %d writes on the data file done, the last one a %s write", stage, len(writes), writes[stage-1].Kind)
+		}
+		os.RemoveAll("data")
+		if err := exec.Command("cp", "-r", "base", "data").Run(); err != nil {
+			return Result{OK: false, Notes: []string{"copy: " + err.Error()}, Kind: "infra"}
+		}
+		os.MkdirAll("data/x", 0755)
+		if stage >= 0 {
+			f, err := os.Create("data/x/tbl")
+			if err != nil {
+				return Result{OK: false, Notes: []string{"image: " + err.Error()}, Kind: "infra"}
+			}
+			for _, io := range writes[:stage] {
+				f.WriteAt(io.Data, io.Off)
+			}
+			f.Close()
+		}
+		if stage >= 1 {
+			os.WriteFile("data/x/wal", nil, 0644) // the log is created right after the first header write
+		}
+		storage.VerifForgetStores()
+		var ierr error
+		func() {
+			defer func() {
+				if r := recover(); r != nil {
+					ierr = fmt.Errorf("panic: %v", r)
+				}
+			}()
+			ierr = storage.InitStorage()
+		}()
+		if ierr != nil {
+			return fail(name, "storage does not start: "+ierr.Error())
+		}
+		w = &world{sess: &engine.Session{}, maxID: map[string]uint32{}, seen: map[string]map[uint32]bool{}} // every image is a world of its own
+		if m := run("USE good"); m != "" {
+			return fail(name, "database good: "+m)
+		}
+		if v := w.checkRows("good", []int{1, 2}); len(v) > 0 {
+			return fail(name, strings.Join(v, "; "))
+		}
+		if m := run("INSERT INTO t (a, b) VALUES (3, 'good3')"); m != "" {
+			return fail(name, "database good: "+m)
+		}
+		// statements on the database that was never completely created: any answer, but an answer
+		for _, q := range []string{"SHOW DATABASES", "USE x", "SELECT * FROM t", "CREATE TABLE t (a INT)", "INSERT INTO t VALUES (1)", "SELECT * FROM t", "USE good", "SELECT * FROM t"} {
+			if err, p := w.exec(q); p {
+				return fail(name, fmt.Sprintf("`%s` panicked: %v", q, err))
+			}
+		}
+		if v := w.checkRows("good", []int{1, 2, 3}); len(v) > 0 {
+			return fail(name, "after statements on x: "+strings.Join(v, "; "))
+		}
+		func() {
+			defer func() { recover() }()
+			w.sess.Close()
+		}()
+	}
+	os.RemoveAll("base")
+	return res
+}
+
 func replay(sc Scenario) (res Result) {
 	if sc.Stall {
 		return stalled()
+	}
+	if sc.Half {
+		return halfCreated()
 	}
 	res.OK = true
 	os.RemoveAll("data")
